@@ -60,7 +60,7 @@ Clauses(e) ==
           (IsTap(e) /\ e.s1 \in StageVals) =>
               \/ e.s1 = stage \/ Advance(stage, e.s1) \/ Fail(stage, e.s1) \/ Restart(stage, e.s1),
       FailOnlyWithoutStageRepeat |-> (IsTap(e) /\ Fail(stage, e.s1)) => FailAllowed,
-      RestartOnlyWithRepeat |-> (IsTap(e) /\ Restart(stage, e.s1)) => RestartAllowed,
+      RestartOnlyWithRepeat |-> (IsTap(e) /\ Restart(stage, e.s1) /\ ~Advance(stage, e.s1)) => RestartAllowed(stage),
       RestartsInTime       |-> IsTap(e) => RestartsInTime(e.s1),
       ConcludedDoesNothing |-> (IsTap(e) /\ Concluded) => (e.ev = "TapIdle" /\ e.s1 \in Terminal),
       TapNothingBeforeStart |-> (e.ev = "TapAct" \/ (IsTap(e) /\ e.s1 # stage)) => TapNotBeforeStart(e.t),
